@@ -85,18 +85,6 @@ Print Assumptions C14_exact_core.
 
 (* ---- refuted: opcodes of vm.c that forget a reference (ref_count stays above the in-degree for ever => the object
    and everything it owns is never freed).  Each: a reachable exact state, one opcode, a non-exact (but safe) state. *)
-Theorem C14_exact_arr_remove_refuted : leaks_at [IEnter 1; IPushStr 0; IArrLiteral 1; IPushNon] (IArrRemove 0%Z).
-Proof. exact arr_remove_leaks. Qed.
-Print Assumptions C14_exact_arr_remove_refuted.
-Theorem C14_exact_arr_set_out_of_range_refuted : leaks_at [IEnter 1; IArrNew; IPushNon; IPushStr 0] (IArrSet 5%Z).
-Proof. exact arr_set_oob_leaks. Qed.
-Print Assumptions C14_exact_arr_set_out_of_range_refuted.
-Theorem C14_exact_ret_from_closure_frame_refuted : leaks_at [IEnter 1; IClosureNew 0; ICallIndirect 0 0 true; IPushNon] IRet.
-Proof. exact ret_closure_leaks. Qed.
-Print Assumptions C14_exact_ret_from_closure_frame_refuted.
-Theorem C14_exact_call_extern_args_refuted : leaks_at [IEnter 1; IPushStr 0] (ICallExtern 1 None).
-Proof. exact call_extern_leaks. Qed.
-Print Assumptions C14_exact_call_extern_args_refuted.
 (* SUB/MUL/DIV/MOD type error path; not a finding: the VM stops with the error right after *)
 Theorem C14_exact_arith_type_error_refuted : leaks_at [IEnter 1; IPushStr 0; IPushNon] IArith2.
 Proof. exact arith_type_error_leaks. Qed.
@@ -105,8 +93,7 @@ Print Assumptions C14_exact_arith_type_error_refuted.
 (* ---- churn.  PARTIAL: checked on the generated table of real instruction streams (every family x 3 and 12
    iterations, regenerated from the current compiler + VM on every run), not proved for all iteration counts.
    Exact families: model run ends with exactly the live-object count of the real VM, final state exact, nothing
-   forgotten, count independent of the iteration count.  Leaking families (array_remove_at, array_set out of range,
-   call through a function value, extern call with a string argument): the count grows by >= 1 per iteration.
+   forgotten, count independent of the iteration count.  (After the C14 fixes no family leaks any more.)
    Missing for the full statement: an induction over the iteration count (needs a renaming argument for ids). *)
 Theorem C14_churn_bounded_partial : churn_table_ok churn_table = true.
 Proof. vm_compute. reflexivity. Qed.
